@@ -69,6 +69,42 @@ def counts_rows(m, name):
     return False
 
 
+def dominating_tests(node, stop):
+    """(test, polarity) of every `if` between node and stop whose branch contains node"""
+    out = []
+    cur = node
+    while getattr(cur, '_parent', None) is not None and cur is not stop:
+        par = cur._parent
+        if isinstance(par, ast.If):
+            if any(cur is x for x in par.body):
+                out.append((par.test, True))
+            elif any(cur is x for x in par.orelse):
+                out.append((par.test, False))
+        # statements before it in the same block that leave the block when their test holds: `if T: continue` ... node
+        for fld in ('body', 'orelse', 'finalbody'):
+            blk = getattr(par, fld, None)
+            if isinstance(blk, list) and any(cur is x for x in blk):
+                for prev in blk[:[i for i, x in enumerate(blk) if x is cur][0]]:
+                    if isinstance(prev, ast.If) and not prev.orelse and prev.body and \
+                            isinstance(prev.body[-1], (ast.Continue, ast.Break, ast.Return, ast.Raise)):
+                        out.append((prev.test, False))
+        cur = par
+    res_ = []
+    for t, pol in out:
+        if isinstance(t, ast.UnaryOp) and isinstance(t.op, ast.Not):
+            t, pol = t.operand, not pol
+        res_.append((t, pol))
+    return res_
+
+
+def enclosing_loops(node, stop):
+    cur = node
+    while getattr(cur, '_parent', None) is not None and cur is not stop:
+        cur = cur._parent
+        if isinstance(cur, ast.For):
+            yield cur
+
+
 def check(ctx):
     run, repo, res = ctx.run, ctx.repo, ctx.res
     run.rule('R15', 'ORDER: finalize_file < tell/hash < close < write_file_to_output < unlink, all after the row loop and on the same '
@@ -123,6 +159,22 @@ def check(ctx):
                               'carry: load(<dumped package>) followed by a dump records twice the bytes / rows of the file')
                 else:
                     run.fail('R19a', where(repo, call), m.qualname, call, 'counter name is not one of the six configured attributes')
+                # guard role: a test of the counter attribute itself that encloses its write enables it (a counter configured as
+                # None is off, any other value is on); a resource-level write inside a scan over the descriptors is enclosed by
+                # the test that the entry is the resource being written (by name)
+                doms = dominating_tests(call, m.node)
+                for t_, pol_ in doms:
+                    if pseudo(t_) == attr:
+                        run.check(pol_, 'R19a', where(repo, call), m.qualname, 'enabled by ' + attr,
+                                  'the counter is written exactly when it is switched off (and never when it is on)')
+                scans = [x for x in enclosing_loops(call, m.node) if 'resources' in u(x.iter)]
+                if cname.startswith('resource_') and scans:
+                    eqs = [(t_, pol_) for t_, pol_ in doms if isinstance(t_, ast.Compare) and len(t_.ops) == 1
+                           and isinstance(t_.ops[0], (ast.Eq, ast.NotEq)) and "['name']" in u(t_) + ' ' and 'name' in u(t_.comparators[0]) + u(t_.left)]
+                    run.check(len(eqs) == 1 and (eqs[0][1] == isinstance(eqs[0][0].ops[0], ast.Eq)), 'R19a', where(repo, call), m.qualname,
+                              'entry chosen by name equality: ' + (u(eqs[0][0]) if eqs else 'none'),
+                              'inside a scan over the resource descriptors a per-resource counter is not written into exactly the '
+                              'entry whose name is the name of the resource being written')
                 # value role
                 val = call.args[2]
                 facts = Facts(m, include_nested=False)
@@ -132,8 +184,10 @@ def check(ctx):
                     okv = pseudo(val) is not None and counts_rows(m, pseudo(val))
                     what = 'a counter that advances by one per row'
                 elif cname.endswith('bytes'):
-                    okv = '.tell()' in txt or 'os.path.getsize(' in txt or '.st_size' in txt
-                    what = 'the tell() of the written file'
+                    import re as _re
+                    okv = '.tell()' in txt or 'os.path.getsize(' in txt or '.st_size' in txt or \
+                        _re.search(r'len\(\w+\.encode\(', txt) is not None      # the byte length of the text that was written
+                    what = 'the tell() of the written file (or its size, or the byte length of the written text)'
                 else:
                     okv = 'hexdigest()' in txt
                     what = 'a hexdigest'
@@ -219,11 +273,22 @@ def check(ctx):
     ok = any(isinstance(n, ast.AugAssign) and isinstance(n.op, ast.Add) and pseudo(n.value) == inc.params[2]
              for n in own_nodes(inc.node))
     run.check(ok, 'R19r', inc.where, inc.qualname, 'obj[prop] += value', 'inc_attr does not add the value')
+    sa_ = db.methods.get('set_attr')
+    ok = sa_ is not None and any(isinstance(n, ast.Assign) and isinstance(n.targets[0], ast.Subscript) and pseudo(n.value) == sa_.params[2]
+                                 for n in own_nodes(sa_.node))
+    run.check(ok, 'R19r', sa_.where if sa_ else db.where, sa_.qualname if sa_ else db.qualname, 'obj[prop] = value',
+              'set_attr does not store the value: per-resource bytes / hash / row count never reach the descriptor')
+    ga_ = db.methods.get('get_attr')
+    ok = ga_ is not None and any(isinstance(n, ast.Return) and n.value is not None and
+                                 match_expr('_o.get(_p, %s)' % ga_.params[2], n.value) is not None for n in own_nodes(ga_.node)) \
+        if ga_ is not None and len(ga_.params) > 2 else ga_ is not None
+    run.check(ok, 'R19r', ga_.where if ga_ else db.where, ga_.qualname if ga_ else db.qualname, 'return obj.get(prop, default)',
+              'get_attr does not return the stored value: the stats process() returns are not the recorded counters')
 
     run.rule('R19b', 'SEALED: between serialising the package descriptor (json.dump) and reading the stats out of it nothing is '
                      'stored into the descriptor, so process() stats equal the written descriptor')
     fhd = ctx.N(fd.methods.get('handle_datapackage'), keep=('inc_attr', 'set_attr', 'get_attr', 'write_file_to_output'))
-    preds = {'DUMP': commits.ext(ctx, 'json.dump'),
+    preds = {'DUMP': commits.ext(ctx, 'json.dump', 'json.dumps'),       # the moment the descriptor is serialised
              'STORE': lambda x: isinstance(x, ast.Call) and isinstance(x.func, ast.Attribute) and x.func.attr in SETTERS
              and x.args and 'self.datapackage.descriptor' in u(x.args[0]),
              'READOUT': lambda x: isinstance(x, ast.Call) and isinstance(x.func, ast.Attribute) and x.func.attr == 'handle_datapackage'}
@@ -292,6 +357,43 @@ def check(ctx):
     run.check(has_expr('_f.seek(0)', hh.node) and has_expr('_f.read(___)', hh.node) and has_expr('_h.update(___)', hh.node)
               and any(isinstance(x, ast.While) for x in ast.walk(hh.node)), 'DET', hh.where, hh.qualname,
               'seek(0); read until empty; update', 'the hash does not cover the whole written file')
+    # every chunk that was read is fed to the digest, text as its UTF-8 bytes: path by path over the body of the read loop
+    hhn = ctx.N(hh)
+    wl = [x for x in ast.walk(hhn.node) if isinstance(x, ast.While)]
+    reads = [a for a in ast.walk(hhn.node) if isinstance(a, ast.Assign) and isinstance(a.value, ast.Call)
+             and isinstance(a.value.func, ast.Attribute) and a.value.func.attr == 'read' and pseudo(a.targets[0])]
+    if len(wl) != 1 or not reads:
+        raise AnalysisError('hash_handler: read loop not found')
+    chunk = pseudo(reads[0].targets[0])
+    from sa.paths import CONTINUE, FALL, Enumerator as _En, path_nodes as _pn
+    n_h = 0
+    for p in _En(where=hh.qualname).body_paths(wl[0]):
+        gs = {}
+        for t_, pol_ in p.guards():
+            b_ = match_expr('isinstance(%s, _t)' % chunk, t_)
+            if b_ is not None:
+                gs[b_['_t']] = pol_
+        if gs and not any(gs.values()) and set(gs) >= {'str', 'bytes'}:
+            continue            # neither text nor bytes: not a chunk read() returns
+        if p.term not in (FALL, CONTINUE):
+            continue            # the path that leaves the loop (nothing was read)
+        ups = [c for c in _pn(p) if isinstance(c, ast.Call) and isinstance(c.func, ast.Attribute) and c.func.attr == 'update' and len(c.args) == 1]
+        n_h += 1
+        okh = len(ups) == 1
+        if okh:
+            a_ = ups[0].args[0]
+            as_bytes = pseudo(a_) == chunk
+            as_text = match_expr('%s.encode(___)' % chunk, a_) is not None
+            if gs.get('str') is True:
+                okh = as_text
+            elif gs.get('bytes') is True or (gs.get('str') is False and 'bytes' not in gs):
+                okh = as_bytes
+            else:
+                okh = as_bytes or as_text
+        run.check(okh, 'DET', where(repo, wl[0]), hh.qualname, 'every chunk read is fed to the digest (text as UTF-8 bytes)',
+                  'a chunk that was read from the written file does not reach the digest: the recorded hash is not the hash of the bytes '
+                  'on disk', path=p.describe())
+    run.floor('DET', n_h, 2, 'paths of the hash read loop')
     nd = commits.descriptor_never_skipped(ctx)
     run.floor('R19d', nd, 2, 'paths through write_file_to_output implementations')
     run.trusted += ['LF1', 'tell() of a text-mode temp file equals its byte size for UTF-8 output']
